@@ -215,6 +215,21 @@ Section B.
     intro Hd. destruct k; try discriminate; destruct o; simpl; split; intro H; try discriminate; reflexivity.
   Qed.
 
+  (* nested breakers: a protected function that itself fails with ErrServiceUnavailable, in a call this breaker let
+     in, is an ordinary completed call: req ran, its error goes back to the caller, the fallback does not run
+     (RFallback only comes out of do_begin, i.e. of a rejection), and the mark follows the predicate *)
+  Lemma inner_unavailable w now k :
+    snd (do_end w now k InnerUnavailable) = RRan InnerUnavailable /\
+    fst (do_end w now k InnerUnavailable) = add w now (if acceptable k InnerUnavailable then 1 else 0) /\
+    (uses_default k = true -> acceptable k InnerUnavailable = false) /\
+    acceptable KDoWithAcceptable InnerUnavailable = false /\
+    (forall p, acceptable (KDoWithFallbackAcceptableP p) InnerUnavailable = pred_ok p UnacceptableErr).
+  Proof.
+    unfold do_end, mark. repeat split; try reflexivity.
+    all: try (intro H; destruct k; try discriminate; reflexivity).
+    all: try (intro p; destruct p; reflexivity).
+  Qed.
+
   Lemma marks_count t0 evs :
     Z.of_nat (length (snd (glog t0 evs))) =
     Z.of_nat (length (filter (fun e => match mark_of e with Some _ => true | None => false end) evs)).
